@@ -256,15 +256,20 @@ def _build_wrapper(I, kind, tag):
     else:
         pt = H.make_point(I, f"{tag}.pt")
         parts["pt"] = pt
-        o = I.instantiate(C["LocatedDifferential"], [e, pt], {"_private": pre_private(I)})
+        o = I.instantiate(C["LocatedDifferential"], [e, pt], {"_private": pre_private(I, tag)})
     return o, parts
 
 
-def pre_private(I):
-    # LocatedDifferential computes its partials at construction; equality / hashing /
-    # printing do not depend on them, so supply them pre-computed (the real _private hook)
+def pre_private(I, tag):
+    # LocatedDifferential computes its partials at construction, or is handed them by
+    # Differential.at (the real _private hook).  Equality, hashing and printing are *exact*
+    # notions, and the two routes agree only in real arithmetic, not float for float: for
+    # these properties the stored partials are therefore arbitrary numbers per object.
+    from ..builtin_contracts import NumBase
     d = SDict()
-    d.entries.append(("numeric_partials", SDict()))
+    present = z3.Const(f"{tag}.partials.present", sym.NameSet)
+    vals = z3.Const(f"{tag}.partials.values", z3.ArraySort(sym.Name, z3.RealSort()))
+    d.entries.append(("numeric_partials", SDict(base=NumBase(present, vals))))
     return d
 
 
